@@ -3,6 +3,7 @@ package exported
 import (
 	sdk "github.com/cosmos/cosmos-sdk/types"
 	paramtypes "github.com/cosmos/cosmos-sdk/x/params/types"
+	undtypes "github.com/unification-com/mainchain/types"
 	"github.com/unification-com/mainchain/x/wrkchain/types"
 )
 
@@ -20,7 +21,7 @@ var (
 )
 
 func CheckIsWrkChainTx(tx sdk.Tx) bool {
-	msgs := tx.GetMsgs()
+	msgs := undtypes.UnwrapMsgs(tx.GetMsgs())
 	for _, msg := range msgs {
 		switch msg.(type) {
 		case *types.MsgRegisterWrkChain:
